@@ -1449,7 +1449,15 @@ func (c *Conn) readLine() (string, error) {
 		}
 	}
 
-	line, err := c.text.ReadLine()
+	line, err := c.text.R.ReadString('\n')
+	if err != nil {
+		// A line that was not received in full (read timeout, connection
+		// lost) is not a command: bufio.Reader.ReadLine would hand it out
+		// without the error.
+		return "", err
+	}
+	line = strings.TrimSuffix(line, "\n")
+	line = strings.TrimSuffix(line, "\r")
 	if limit := c.server.MaxLineLength; err == nil && limit > 0 && len(line)+1 > limit {
 		// The limiter below the buffered reader does not see what was
 		// buffered while the limit was lifted for a BDAT chunk: a line
